@@ -5,6 +5,8 @@
 use crate::checks::c05::to_keypath;
 use crate::conv::*;
 use crate::harness::*;
+#[allow(unused_imports)]
+use crate::harness::Tier;
 use refmodel::layout::{enc, strict_dec};
 use refmodel::ops::{self, KP};
 use refmodel::RVal;
@@ -498,5 +500,241 @@ pub fn wide_deep_doc(v: &RVal, acc: &mut Acc, what: u8) {
             }
         }
         _ => serde_doc(&d, acc),
+    }
+}
+
+// ---------------------------------------------------------------------------------------------
+// SIZE SWEEP and DEPTH SWEEP: exhaustive in ONE dimension.  Thresholds introduced by "fast paths"
+// (sort-stability cut-offs at 21 / 33 elements, bisection above 64 / 256 keys, ring buffers that
+// wrap at 100 / 200 / 400 items, recursion guards at 64 / 128 levels, 16-bit counters) sit at
+// arbitrary sizes; instead of guessing them, every size 0..=limit and every depth 1..=limit is
+// visited, plus 2^k-1, 2^k, 2^k+1 up to 2^17.
+
+pub fn sizes(tier: Tier) -> Vec<usize> {
+    let lim = if tier.thorough() { 4200 } else { 1100 };
+    let mut v: Vec<usize> = (0..=lim).collect();
+    for k in 10..=17u32 {
+        for d in [-1i64, 0, 1] {
+            v.push(((1i64 << k) + d) as usize);
+        }
+    }
+    v.push(32769);
+    v.push(70000);
+    v.sort();
+    v.dedup();
+    v
+}
+
+/// for operations that are linear per call and called ~100 times per document (editors), or
+/// quadratic (filters comparing with a path operand): every N up to the limit, then only a few
+/// boundaries
+pub fn sizes_heavy(tier: Tier) -> Vec<usize> {
+    let lim = if tier.thorough() { 2100 } else { 600 };
+    let mut v: Vec<usize> = (0..=lim).collect();
+    v.extend([1023, 1024, 1025, 4095, 4096, 4097]);
+    if tier.thorough() {
+        v.extend([32769, 65535, 65536, 65537]);
+    }
+    v.sort();
+    v.dedup();
+    v
+}
+
+/// the five size-N families
+pub fn sized(family: u8, n: usize) -> RVal {
+    match family {
+        0 => RVal::Arr((0..n).map(|i| RVal::u(i as u64)).collect()),
+        1 => RVal::Obj((0..n).map(|i| (format!("k{}", i), RVal::u(i as u64))).collect()),
+        2 => RVal::Arr((0..n).map(|j| if j % 3 == 0 { RVal::f((j % 7) as f64) } else if j % 5 == 0 { RVal::s("dup") } else { RVal::u((j % 7) as u64) }).collect()),
+        3 => RVal::Str("s".repeat(n)),
+        _ => RVal::Arr((0..n).map(|i| if i % 2 == 0 { RVal::arr(vec![]) } else { RVal::obj(vec![("a", RVal::Null)]) }).collect()),
+    }
+}
+
+pub const N_FAMILIES: u64 = 5;
+
+pub fn sized_doc(family: u8, n: usize) -> SDoc {
+    let val = sized(family, n);
+    let bytes = enc(&val);
+    SDoc { name: format!("size-family {} with N={}", family, n), val, bytes }
+}
+
+/// relations on size-N documents (what = 0 compare, 1 contains, 2 key-vs-compare)
+pub fn sized_relations(n: usize, acc: &mut Acc, what: u8) {
+    // A_N (unsigned) against the same numbers as floats, with the last one changed, one fewer
+    let a = RVal::Arr((0..n).map(|i| RVal::u(i as u64)).collect());
+    let f = RVal::Arr((0..n).map(|i| RVal::f(i as f64)).collect());
+    let mut l = (0..n).map(|i| RVal::u(i as u64)).collect::<Vec<_>>();
+    if let Some(x) = l.last_mut() {
+        *x = RVal::u(1 << 40);
+    }
+    let l = RVal::Arr(l);
+    let s = RVal::Arr((0..n.saturating_sub(1)).map(|i| RVal::f(i as f64)).collect());
+    let o = RVal::Obj((0..n).map(|i| (format!("k{}", i), RVal::u(i as u64))).collect());
+    let of = RVal::Obj((0..n).map(|i| (format!("k{}", i), RVal::f(i as f64))).collect());
+    let docs: Vec<(RVal, Vec<u8>)> = [a, f, l, s, o, of].into_iter().map(|v| { let b = enc(&v); (v, b) }).collect();
+    if what == 1 && n > 1500 {
+        return; // containment is quadratic
+    }
+    for (x, xb) in &docs {
+        for (y, yb) in &docs {
+            acc.eval();
+            acc.nontrivial += 1;
+            let ctx = || json!({"N": n, "a": format!("{:.60}", format!("{:?}", x)), "b": format!("{:.60}", format!("{:?}", y))});
+            match what {
+                0 => {
+                    let exp = ops::ref_cmp(x, y);
+                    match guard(|| jsonb::compare(xb, yb)) {
+                        Ok(Ok(c)) if c == exp => {}
+                        other => acc.vio("size:compare:differs-from-documented-order", || json!({"ctx": ctx(), "expected": format!("{:?}", exp), "observed": format!("{:?}", other)})),
+                    }
+                }
+                1 => {
+                    let exp = ops::ref_contains(x, y);
+                    match guard(|| jsonb::contains(xb, yb)) {
+                        Ok(c) if c == exp => {}
+                        other => acc.vio("size:contains:differs-from-rules", || json!({"ctx": ctx(), "expected": exp, "observed": format!("{:?}", other)})),
+                    }
+                }
+                _ => {
+                    let r = guard(|| {
+                        let (mut ka, mut kb) = (vec![], vec![]);
+                        jsonb::convert_to_comparable(xb, &mut ka);
+                        jsonb::convert_to_comparable(yb, &mut kb);
+                        (ka.cmp(&kb), jsonb::compare(xb, yb))
+                    });
+                    match r {
+                        Ok((ko, Ok(c))) if ko == c => {}
+                        other => acc.vio("size:key-order!=compare", || json!({"ctx": ctx(), "observed": format!("{:?}", other)})),
+                    }
+                }
+            }
+        }
+    }
+}
+
+/// JSONPath on size-N documents, through all four modes and the entry points (C08 + C15)
+pub fn sized_paths(n: usize, acc: &mut Acc, modes: bool) {
+    use refmodel::jpath::*;
+    let cur = || Expr::Paths(vec![Step::Current]);
+    let num = |x: u64| Expr::Lit(Lit::Num(refmodel::RNum::U(x)));
+    let mid = n / 2;
+    let paths: Vec<JPath> = vec![
+        JPath(vec![Step::Root, Step::BracketWild]),
+        JPath(vec![Step::Root, Step::DotWild]),
+        JPath(vec![Step::Root, Step::Indices(vec![AIdx::One(Idx::Last(0))])]),
+        JPath(vec![Step::Root, Step::Indices(vec![AIdx::Slice(Idx::N(0), Idx::Last(0))])]),
+        JPath(vec![Step::Root, Step::Indices(vec![AIdx::One(Idx::N(mid as i32)), AIdx::One(Idx::N(0)), AIdx::One(Idx::Last(0))])]),
+        JPath(vec![Step::Root, Step::Dot(format!("k{}", n.saturating_sub(1)))]),
+        JPath(vec![Step::Root, Step::Dot(format!("k{}", mid))]),
+        JPath(vec![Step::Root, Step::Dot("k0".into())]),
+        JPath(vec![Step::Root, Step::Dot("k9".into())]),
+        JPath(vec![Step::Root, Step::Dot("k10".into())]),
+        JPath(vec![Step::Root, Step::BracketWild, Step::Filter(Box::new(Expr::Cmp(Cmp::Ge, Box::new(cur()), Box::new(num(mid as u64)))))]),
+        JPath(vec![Step::Root, Step::DotWild, Step::Filter(Box::new(Expr::Cmp(Cmp::Lt, Box::new(cur()), Box::new(num(3)))))]),
+        JPath(vec![Step::Root, Step::BracketWild, Step::Filter(Box::new(Expr::Cmp(Cmp::Eq, Box::new(cur()), Box::new(Expr::Paths(vec![Step::Root, Step::Indices(vec![AIdx::One(Idx::Last(0))])])))))]),
+    ];
+    for fam in [0u8, 1, 2, 4] {
+        let d = sized_doc(fam, n);
+        for p in &paths {
+            let ip = crate::pathconv::to_impl_path(p);
+            if modes {
+                crate::checks::c15::judge(p, &ip, &d.val, &d.bytes, acc);
+            } else {
+                crate::checks::c08::judge(p, &ip, &d.val, &d.bytes, acc);
+            }
+        }
+    }
+}
+
+/// chains of depth N (3 shapes) with a container bottom, for the depth sweep
+pub fn depth_docs(n: usize) -> Vec<SDoc> {
+    let mut out = vec![];
+    for shape in 0..3u8 {
+        for (tag, bottom) in [("[1,\"a\"]", RVal::arr(vec![RVal::u(1), RVal::s("a")])), ("[1.0,\"a\"]", RVal::arr(vec![RVal::f(1.0), RVal::s("a")])), ("{\"x\":1,\"y\":[1,2,3]}", RVal::obj(vec![("x", RVal::u(1)), ("y", RVal::arr(vec![RVal::u(1), RVal::u(2), RVal::u(3)]))])), ("{\"x\":1}", RVal::obj(vec![("x", RVal::u(1))])), ("[2,0]", RVal::arr(vec![RVal::u(2), RVal::u(0)])), ("[10]", RVal::arr(vec![RVal::u(10)])), ("null", RVal::Null)] {
+            let val = refmodel::gen::chain(n, shape, bottom);
+            let bytes = enc(&val);
+            out.push(SDoc { name: format!("depth {} shape {} bottom {}", n, shape, tag), val, bytes });
+        }
+    }
+    out
+}
+
+pub fn depth_relations(n: usize, acc: &mut Acc, what: u8) {
+    let ds = depth_docs(n);
+    for a in &ds {
+        for b in &ds {
+            acc.eval();
+            acc.nontrivial += 1;
+            let ctx = || json!({"a": a.name, "b": b.name});
+            match what {
+                0 => {
+                    let exp = ops::ref_cmp(&a.val, &b.val);
+                    match guard(|| jsonb::compare(&a.bytes, &b.bytes)) {
+                        Ok(Ok(c)) if c == exp => {}
+                        other => acc.vio("depth:compare:differs-from-documented-order", || json!({"ctx": ctx(), "expected": format!("{:?}", exp), "observed": format!("{:?}", other)})),
+                    }
+                }
+                1 => {
+                    let exp = ops::ref_contains(&a.val, &b.val);
+                    match guard(|| jsonb::contains(&a.bytes, &b.bytes)) {
+                        Ok(c) if c == exp => {}
+                        other => acc.vio("depth:contains:differs-from-rules", || json!({"ctx": ctx(), "expected": exp, "observed": format!("{:?}", other)})),
+                    }
+                }
+                _ => {
+                    let r = guard(|| {
+                        let (mut ka, mut kb) = (vec![], vec![]);
+                        jsonb::convert_to_comparable(&a.bytes, &mut ka);
+                        jsonb::convert_to_comparable(&b.bytes, &mut kb);
+                        (ka.cmp(&kb), jsonb::compare(&a.bytes, &b.bytes))
+                    });
+                    match r {
+                        Ok((ko, Ok(c))) if ko == c => {}
+                        other => acc.vio("depth:key-order!=compare", || json!({"ctx": ctx(), "observed": format!("{:?}", other)})),
+                    }
+                }
+            }
+        }
+    }
+}
+
+/// per-document operations of a property on every depth-N chain
+pub fn depth_ops(n: usize, acc: &mut Acc, what: u8) {
+    for d in depth_docs(n).into_iter().step_by(2) {
+        match what {
+            0 => whole_doc(&d, acc),
+            1 => render_doc(&d, acc),
+            2 => {
+                let sp = refmodel::gen::spine(&d.val);
+                for cut in [0, 1, sp.len() / 2, sp.len().saturating_sub(1), sp.len()] {
+                    let kp: Vec<KP> = sp[..cut.min(sp.len())].to_vec();
+                    let kpi: Vec<_> = kp.iter().map(to_keypath).collect();
+                    cmp_opt("get_by_keypath", guard(|| jsonb::get_by_keypath(&d.bytes, kpi.iter())).unwrap_or(None), ops::get_by_keypath(&d.val, &kp), acc, &d, &format!("spine[..{}]", cut));
+                }
+                let mut strs = vec![];
+                d.val.all_strings(&mut strs);
+                let cnt = std::cell::Cell::new(0usize);
+                let _ = guard(|| jsonb::traverse_check_string(&d.bytes, |_| { cnt.set(cnt.get() + 1); false }));
+                acc.eval();
+                if cnt.get() != strs.len() {
+                    acc.vio("depth:traverse_check_string:wrong", || json!({"doc": d.name}));
+                }
+            }
+            3 => {
+                let sp = refmodel::gen::spine(&d.val);
+                for cut in [1, sp.len() / 2, sp.len().saturating_sub(1), sp.len()] {
+                    if cut == 0 || cut > sp.len() {
+                        continue;
+                    }
+                    let kp: Vec<KP> = sp[..cut].to_vec();
+                    let kpi: Vec<_> = kp.iter().map(to_keypath).collect();
+                    edit("delete_by_keypath", |buf| jsonb::delete_by_keypath(&d.bytes, kpi.iter(), buf), ops::delete_by_keypath(&d.val, &kp), acc, &d, &format!("spine[..{}]", cut));
+                }
+                edit("strip_nulls", |buf| jsonb::strip_nulls(&d.bytes, buf), Ok(ops::strip_nulls(&d.val)), acc, &d, "");
+                edit("concat(s,s)", |buf| jsonb::concat(&d.bytes, &d.bytes, buf), Ok(ops::concat(&d.val, &d.val)), acc, &d, "");
+            }
+            _ => serde_doc(&d, acc),
+        }
     }
 }
